@@ -1,5 +1,17 @@
 ---------------------------- MODULE Gen_Atoms ----------------------------
 EXTENDS Atoms, Json, CSV, IOUtils
 EmitAll  == CSVWrite("%1$s", <<ToJson([spec |-> "Atoms", steps |-> hist'])>>, IOEnv.GEN_OUT)
+\* the wrap generator starts behind the Burn step (both steps are in the emitted behaviour) and stays around the wrap
+PreReg(i) == [op |-> "Register", args |-> [obj |-> 101 + 3 * i], out |-> [ret |-> i]]      \* RegObj(1) at counter i
+WrapInit == \E k \in 0..3 :
+            /\ live = [i \in 0..(k - 1) |-> 101 + 3 * i] /\ next = TailId /\ cache = [i \in 1..4 |-> Empty] /\ inited = TRUE
+            /\ wrapped = FALSE /\ burnt = TRUE /\ out = [ret |-> 0]
+            /\ hist = << [op |-> "InitGroup", args |-> [a |-> 0], out |-> [ret |-> 0]] >>
+                      \o [i \in 1..k |-> PreReg(i - 1)]
+                      \o << [op |-> "Burn", args |-> [from |-> k, space |-> IdSpace], out |-> [ret |-> 0]] >>
+WrapIds  == {TailId, TailId + 1, 0, 1, 2, 3}
+WrapNext == \/ \E o \in Objs : Register(RegObj(o))
+            \/ \E id \in WrapIds : Lookup(id) \/ Remove(id)
+WrapSpec == WrapInit /\ [][WrapNext]_vars
 EmitFull == (Len(hist') = MaxOps) => EmitAll
 =============================================================================
